@@ -1,30 +1,74 @@
-"""Registry of Kani harnesses: which property, which tier, which unwind set, which cap.
+"""Registry of Kani harnesses (single source of truth).
 
-`unwindset` maps a regex over loop names (mangled or the readable hint `a::b::c.N`) to a bound;
-bounds are derived from the code (DESIGN.md §3.6): memcmp = longest compared slice + 1,
-increment_by_one = 32-byte id + 1, ...  Unwinding assertions stay on, so a bound that is too
-small is reported as INCONCLUSIVE, never as success."""
+`python3 lib/gen.py` generates from it:
+  kani/src/harnesses_gen.rs      the #[kani::proof] wrappers with their stub attributes
+  kani/incrate/dispatch_gen.rs   name -> body dispatch used by the native replay binary
+
+Fields: name; body (path below iroh_docs::verif_incrate, with generics, `S` = the draw source);
+props (a harness may serve several properties); tier; unwind (default bound for all loops);
+unwindset {regex over `rust::path::of::fn.N` or C name: bound} — bounds are derived from the code
+(DESIGN.md §3.6): memcmp = longest compared slice + 1, increment_by_one = 32-byte id + 1, ...
+Unwinding assertions stay on: a bound that is too small is INCONCLUSIVE, never success.
+stubs: names of stub sets in STUBS (every stub is part of the claim)."""
+
+STUBS = {
+    # bytes::Bytes reference counting through a vtable: no-op drop / deep-copy clone
+    "bytes": [
+        ("<bytes::Bytes as core::ops::Drop>::drop", "crate::env::bytes_drop"),
+        ("<bytes::Bytes as core::clone::Clone>::clone", "crate::env::bytes_clone"),
+    ],
+    # tracing needs a thread_local dispatcher (Kani ICE): never interested / disabled / no-op
+    "tracing": [
+        ("tracing_core::callsite::DefaultCallsite::interest", "crate::env::tracing_interest"),
+        ("tracing::__macro_support::__is_enabled", "crate::env::tracing_is_enabled"),
+        ("tracing_core::event::Event::dispatch", "crate::env::tracing_dispatch"),
+    ],
+    # anyhow captures a backtrace (getenv): disabled
+    "backtrace": [("std::backtrace::Backtrace::capture", "crate::env::backtrace_disabled")],
+}
+DEFAULT_STUBS = ["bytes", "tracing", "backtrace"]
 
 HARNESSES = []
 META = {}
 
 
-def h(name, prop, tier="quick", unwindset=None, **kw):
-    d = dict(name=name, prop=prop, tier=tier, unwindset=unwindset or {})
+def h(name, body, props, tier="quick", unwind=4, unwindset=None, stubs=None, **kw):
+    d = dict(name=name, body=body, props=props if isinstance(props, list) else [props], tier=tier, unwind=unwind,
+             unwindset=unwindset or {}, stubs=(stubs if stubs is not None else DEFAULT_STUBS))
     d.update(kw)
     HARNESSES.append(d)
 
 
-# ---- C02 -----------------------------------------------------------------------------------
-MEMCMP_ID = {r"^memcmp\.0$": 34, r"bounds::increment_by_one\.0": 34}
-for p, k, tier in [(0, 1, "quick"), (1, 1, "quick"), (1, 2, "quick"), (2, 1, "quick"), (2, 2, "quick"), (2, 3, "thorough")]:
-    h("c02_bounds_author_prefix_p%d_k%d" % (p, k), "C02", tier, MEMCMP_ID, family="bounds_author_prefix")
+# =============================================================================================
+# bounds kernel (E1): C02, C05, C08, C16 — the ranges handed to redb contain exactly the right ids
+# =============================================================================================
+UW_ID = {r"^memcmp\.0$": 34, r"bounds::increment_by_one\.0": 34, r"bounds::prefix_successor\.0": 5}
+BOUNDS_PROPS = ["C02", "C05", "C08", "C16"]
+def bounds_family(fam, body, props, insts):
+    """quick: tail-symbolic ids (fill byte + 2 free bytes); thorough adds the fully symbolic ids."""
+    for a, b, tier in insts:
+        h("%s_%d_%d" % (fam, a, b), "store_fs::%s::<S, %d, %d, false>" % (body, a, b), props, tier, unwindset=UW_ID, family=fam)
+        h("%s_%d_%d_full" % (fam, a, b), "store_fs::%s::<S, %d, %d, true>" % (body, a, b), props, "thorough", unwindset=UW_ID, family=fam)
+
+
+# (prefix len, key len)
+bounds_family("bounds_author_prefix", "bounds_author_prefix", ["C02", "C05"],
+              [(0, 1, "quick"), (1, 1, "quick"), (1, 2, "quick"), (2, 1, "quick"), (2, 2, "quick"), (2, 3, "thorough"), (3, 2, "thorough")])
+bounds_family("bounds_author_key", "bounds_author_key", ["C05"], [(1, 1, "quick"), (1, 2, "quick"), (2, 2, "thorough")])
+# (candidate key len, bound key len)
+bounds_family("bounds_namespace", "bounds_namespace", ["C08", "C16", "C05"], [(1, 1, "quick"), (0, 1, "quick"), (1, 0, "quick"), (2, 1, "thorough")])
+bounds_family("bounds_bykey", "bounds_bykey", ["C05", "C16"], [(0, 1, "quick"), (1, 1, "quick"), (1, 2, "quick"), (2, 1, "quick"), (2, 2, "thorough")])
+
+COMMON_ASSUMPTIONS = [
+    "bytes::Bytes drop/clone replaced by no-op/deep copy (allocation lifetime abstracted; memory safety of `bytes` not claimed)",
+    "tracing macros disabled by stubs (Kani cannot compile thread_local dispatch); anyhow backtrace capture disabled",
+    "Kani models the dev profile (overflow checks and debug assertions on); native replay runs dev and (thorough) release",
+]
 
 META["C02"] = dict(
     functions=["store::fs::bounds::RecordsBounds::{author_prefix,author_key,as_ref}", "store::fs::bounds::increment_by_one",
                "<RecordsBounds as RangeBounds<RecordsIdOwned>>::contains"],
-    bounds="prefix length 0..2, candidate key length 1..3 (one harness instance per length pair), namespace/author ids: all 32 bytes symbolic",
-    outside="longer prefixes/keys",
-    assumptions=["bytes::Bytes drop/clone replaced by no-op/deep copy (allocation lifetime abstracted)",
-                 "tracing disabled by stubs", "redb's tuple comparison equals Rust's lexicographic tuple order (validated by the redb model differential test)"],
+    bounds="prefix length 0..2, candidate key length 1..3 (one harness instance per length pair); namespace/author ids: all 32 bytes symbolic",
+    outside="longer prefixes/keys (the code is length-uniform beyond the last byte); histories (one-step law + induction on paper)",
+    assumptions=COMMON_ASSUMPTIONS + ["redb's tuple comparison equals Rust's lexicographic tuple order (validated by the redb model differential test)"],
 )
